@@ -136,6 +136,18 @@ type WorkerReport struct {
 	Extra       map[string]int64 `json:"extra,omitempty"`
 }
 
+// Thorough reports whether the thorough tier is running: generators then draw
+// larger scenarios (more callers, commits, rounds, longer tapes).
+func Thorough() bool { return os.Getenv("VERIF_TIER") == "thorough" }
+
+// Scale returns quick or thorough depending on the tier.
+func Scale(quick, thorough int) int {
+	if Thorough() {
+		return thorough
+	}
+	return quick
+}
+
 func envInt(name string, def int) int {
 	if v := os.Getenv(name); v != "" {
 		if n, err := strconv.Atoi(v); err == nil {
